@@ -590,9 +590,10 @@ package bkl
 //@ func Parser.MergeDocument(p, patch) (err)
 //@   property C02
 //@   modifies Parser.docs, Document.Data, Document.Parents, Document.ID
-//@   uses rmemApp, rdistinctApp, rappNil, rsnocApp, anyRejectedApp
-//@   requires (rdistinct (Parser.docs p)) (not (rmem patch (Parser.docs p))) (not (= patch 0))
-//@   requires (forall ((r Int)) (=> (rmem r (Parser.docs p)) (and (not (= r 0)) (< r allocTop))))
+//@   uses rmemApp, rdistinctApp, rappNil, rsnocApp, anyRejectedApp, wfDocsSnoc, wfDocsMono
+//@   requires (wfDocs (Parser.docs p) allocTop) (not (rmem patch (Parser.docs p))) (not (= patch 0))
+//@   ensures (wfDocs (Parser.docs p) allocTop@post)                                                                                    [C02]
+//@   ensures (forall ((r Int)) (=> (rmem r (Parser.docs p)) (or (rmem r (old (Parser.docs p))) (= r patch) (>= r allocTop))))            [C02]
 //@   ensures (=> (not (and ((_ is VMap) (old (Document.Data patch))) (not (= (select (mc (old (Document.Data patch))) "$match") VAbsent))))          [C02]
 //@              (let ((ts (parentsOf (old (heap Parser.docs)) (old (heap Document.ID)) (old (heap Document.Parents)) p patch))
 //@                    (body (old (Document.Data patch))))
@@ -610,9 +611,10 @@ package bkl
 //@ func Parser.mergePatchMatch(p, patch) (matched, err)
 //@   property C02
 //@   modifies Parser.docs, Document.Data, Document.Parents, Document.ID
-//@   uses rmemApp, rdistinctApp, rappNil, rsnocApp, anyRejectedApp
-//@   requires (rdistinct (Parser.docs p)) (not (rmem patch (Parser.docs p))) (not (= patch 0))
-//@   requires (forall ((r Int)) (=> (rmem r (Parser.docs p)) (and (not (= r 0)) (< r allocTop))))
+//@   uses rmemApp, rdistinctApp, rappNil, rsnocApp, anyRejectedApp, wfDocsSnoc, wfDocsMono
+//@   requires (wfDocs (Parser.docs p) allocTop) (not (rmem patch (Parser.docs p))) (not (= patch 0))
+//@   ensures (wfDocs (Parser.docs p) allocTop@post)                                                                                    [C02]
+//@   ensures (forall ((r Int)) (=> (rmem r (Parser.docs p)) (or (rmem r (old (Parser.docs p))) (>= r allocTop))))                        [C02]
 //@   ensures (= matched (and ((_ is VMap) (old (Document.Data patch))) (not (= (select (mc (old (Document.Data patch))) "$match") VAbsent))))          [C02]
 //@   ensures (=> (not matched) (and (not (isErr err)) (= (heap Document.Data) (old (heap Document.Data)))                                          [C02]
 //@                                  (= (heap Parser.docs) (old (heap Parser.docs))) (= (heap Document.Parents) (old (heap Document.Parents)))
@@ -642,15 +644,27 @@ package bkl
 //@                          (VMap (store (mc (old (Document.Data patch))) "$match" VAbsent))))
 //@ func Parser.mergeFile(p, f) (err)
 //@   property C02
-//@   modifies Parser.docs, Document.Data, Document.Parents
+//@   modifies Parser.docs, Document.Data, Document.Parents, Document.ID
+//@   uses rmemApp, rdistinctApp, rdistinctTail
+//@   requires (wfDocs (Parser.docs p) allocTop) (rdistinct (file.docs f))
+//@   requires (forall ((r Int)) (=> (rmem r (file.docs f)) (and (not (= r 0)) (< r allocTop) (not (rmem r (Parser.docs p))))))
+//@   ensures (wfDocs (Parser.docs p) allocTop@post)                                                                                    [C02]
+//@   loop 1
+//@     invariant (wfDocs (Parser.docs p) allocTop)
+//@     invariant (= (file.docs f) (old (file.docs f)))
+//@     invariant (forall ((r Int)) (=> (rmem r rest) (not (rmem r (Parser.docs p)))))
+//@     invariant (>= allocTop (old allocTop))
 //@ func Parser.MergeFile(p, path) (err)
 //@   property C02
 //@   property C03
-//@   uses rmemApp
+//@   uses rmemApp, wfDocsMono
+//@   requires (wfDocs (Parser.docs p) allocTop)
+//@   ensures (wfDocs (Parser.docs p) allocTop@post)                                                                                    [C02]
 //@   at call Parser.mergeFile#1
 //@     assert (forall ((r Int)) (=> (rmem r (file.docs f)) (not (and ((_ is VMap) (Document.Data r)) (not (= (select (mc (Document.Data r)) "$parent") VAbsent))))))   [C03]
 //@   loop 1
 //@     invariant (forall ((r Int)) (=> (rmem r done) (not (and ((_ is VMap) (Document.Data r)) (not (= (select (mc (Document.Data r)) "$parent") VAbsent))))))
+//@     invariant (and (= (heap Parser.docs) (old (heap Parser.docs))) true)
 //@   modifies Parser.docs, Document.Data, Document.Parents
 //@ func Parser.MergeFileLayers(p, path) (err)
 //@   property C02
@@ -658,15 +672,23 @@ package bkl
 
 //@ func Parser.Output(p, format) (out, err)
 //@   property C19
+//@   property C05
+//@   ensures (=> (= (fmtByName format) 0) (isErr err))                                                      [C05]
 //@   modifies nothing
 //@ func Parser.OutputDocuments(p) (res, err)
 //@   property C19
 //@   modifies nothing
 //@ func Parser.OutputToWriter(p, fh, format) (err)
 //@   property C19
+//@   property C05
+//@   at call Parser.Output#1
+//@     assert (= format (ite (= format@pre "") "json-pretty" format@pre))                                  [C05]
 //@   modifies nothing
 //@ func Parser.OutputToFile(p, path, format) (err)
 //@   property C19
+//@   property C05
+//@   at call Parser.OutputToWriter#1
+//@     assert (=> (not (= format@pre "")) (= format format@pre))                                           [C05]
 //@   modifies nothing
 //@ func Parser.Documents(p) (res)
 //@   property C19
@@ -691,6 +713,9 @@ package bkl
 
 //@ func Parser.loadFile(p, path, child) (res, err)
 //@   property C18
+//@   uses rmemApp, rdistinctSnoc
+//@   ensures (=> (not (isErr err)) (freshDocs (file.docs res) allocTop allocTop@post))                                                  [C02]
+//@   ensures (= (heap Parser.docs) (old (heap Parser.docs)))
 //@   ensures (=> (not (isErr err)) (= (file.id res) (ite (= child 0) path (str.++ (old (file.id child)) "|" path))))
 //@   ensures (forall ((r Int)) (=> (< r allocTop) (= (file.id r) (old (file.id r)))))
 //@   effects read-content:os.Root.Open, read-content:io.ReadAll, probe
@@ -699,6 +724,8 @@ package bkl
 //@   ensures (=> (not (isErr err)) (<= (file.depth res) 1000))
 //@   ensures (forall ((r Int)) (=> (< r allocTop) (= (file.depth r) (old (file.depth r)))))
 //@   loop 1
+//@     invariant (freshDocs (file.docs f) (old allocTop) allocTop)
+//@     invariant (and (>= f (old allocTop)) (< f allocTop))
 //@     invariant (= (file.depth f) (ite (= child 0) 0 (+ (file.depth child) 1)))
 //@     invariant (forall ((r Int)) (=> (< r (old allocTop)) (= (file.depth r) (old (file.depth r)))))
 //
